@@ -8,6 +8,7 @@ CONSTANTS
   MaxTxPerBlock = 2
   MaxTxTotal = 2
   Window = 2
+  GCLag = 0
   CheckStay = TRUE
   Deviation = "GCDropsNewerRecord"
 INVARIANTS InvSound InvAdmits InvStay InvProp
